@@ -17,9 +17,9 @@ if grep -rnE '^\s*(Admitted|Axiom|Parameter|Conjecture|Hypothesis|Variable)\b|\b
 fi
 # 1b. regenerate the translated layer from /repo's CURRENT source (fail closed: on a translation
 #     error the generated file is removed, so that exactly the theorems that depend on it stop building)
-for tr in scalars guards; do
+for tr in scalars effects; do
   if [ -f harness/translate/$tr.py ]; then
-    python3 harness/translate/$tr.py > build/translate_$tr.log 2>&1 || { cat build/translate_$tr.log >&2; case $tr in scalars) rm -f coq/theories/Gen/Scalars.v;; guards) rm -f coq/theories/Gen/Guards.v;; esac; }
+    python3 harness/translate/$tr.py > build/translate_$tr.log 2>&1 || { cat build/translate_$tr.log >&2; case $tr in scalars) rm -f coq/theories/Gen/Scalars.v;; effects) rm -f coq/theories/Gen/Effects.v;; esac; }
   fi
 done
 cd coq
